@@ -81,4 +81,27 @@ def handleMp (fs : List (String × String)) : String := Id.run do
     else none
   return verdict agree bad (real.length ≥ 24) s!"mp-{kindS}-{mutTag}" (String.intercalate ";" notes)
 
+/-- `readRemoteState` on a plaintext state exchange: the model's parse + port normalisation against the
+entries the real function hands to the merge (`got`, in the wire order of the fields; nil and empty
+byte strings are not told apart) -/
+def handleRrs (fs : List (String × String)) : String := Id.run do
+  let some body := (if getD fs "stream" "" == "E" then some [] else hexBytesAux (getD fs "stream" "").toList []) | return "PARSE stream"
+  let bind := (getNat fs "bind").getD 7946
+  let all := getD fs "proto" "2" == "1"
+  let got := getD fs "got" "?"
+  let userGot := getD fs "user" "E"
+  let loose (v : Val) : String := match v with | .bytes none => "E" | v => showVal v
+  let model := match readRemoteState bind all body with
+    | none => "ERR"
+    | some (_, sts, _, _) => if sts.isEmpty then "-" else String.intercalate "|" (sts.map fun st => String.intercalate ";" (st.map loose))
+  let mUser := match readRemoteState bind all body with | some (_, _, u, _) => hexs u | none => "E"
+  let portless := got != "ERR" && (got.splitOn "|").any fun st => match st.splitOn ";" with
+    | [_, _, _, _, p, _, _] => p == "0" | _ => false
+  let agree := model == got && (got == "ERR" || mUser == userGot)
+  let bad : Option String :=
+    if got == "PANIC" then some "panic"
+    else if portless then some "push/pull-entry-reaches-the-merge-without-a-port"
+    else none
+  return verdict agree bad (body.length ≥ 40) s!"rrs-p{getD fs "proto" "2"}" (if agree then "" else s!"model={model}")
+
 end Swim.Drv.Msgpack
